@@ -1176,7 +1176,48 @@ class Enumerator:
 
         return self.ev(n.generators[0].iter, st, kc)
 
-    e_ListComp = e_SetComp = e_GeneratorExp = e_DictComp = _comp
+    e_SetComp = e_DictComp = _comp
+
+    def e_GeneratorExp(self, n, st, k):
+        # (`loops_for_comps="all"`: also generator expressions, for consumers known to exhaust them, e.g. str.join)
+        if getattr(self, "loops_for_comps", False) == "all":
+            return self.e_ListComp(n, st, k)
+        return self._comp(n, st, k)
+
+    def e_ListComp(self, n, st, k):
+        """With `loops_for_comps` a list comprehension is run as the loop it abbreviates
+        (`tmp = []; for v in xs: if c: tmp.append(elt)`), so rules written for the loop form see the same events."""
+        if not getattr(self, "loops_for_comps", False) or any(g.is_async for g in n.generators):
+            return self._comp(n, st, k)
+        tag = f"{getattr(n, 'lineno', 0)}_{getattr(n, 'col_offset', 0)}"
+        tmp = f"__lc{tag}"
+        bound = {t.id for g in n.generators for t in ast.walk(g.target) if isinstance(t, ast.Name)}
+        ren = {b: f"__lc{tag}_{b}" for b in bound}
+
+        class _R(ast.NodeTransformer):
+            def visit_Name(self, nd):
+                return ast.Name(id=ren[nd.id], ctx=nd.ctx) if nd.id in ren else nd
+
+        body = [ast.Expr(value=ast.Call(func=ast.Attribute(value=ast.Name(id=tmp, ctx=ast.Load()), attr="append", ctx=ast.Load()),
+                                        args=[_R().visit(_deepcopy(n.elt))], keywords=[]))]
+        for g in reversed(n.generators):
+            for c in reversed(g.ifs):
+                body = [ast.If(test=_R().visit(_deepcopy(c)), body=body, orelse=[])]
+            body = [ast.For(target=_R().visit(_deepcopy(g.target)), iter=_R().visit(_deepcopy(g.iter)), body=body, orelse=[])]
+        init = ast.Assign(targets=[ast.Name(id=tmp, ctx=ast.Store())], value=ast.List(elts=[], ctx=ast.Load()))
+        stmts = [init] + body
+        for x_ in stmts:
+            for y_ in ast.walk(x_):
+                if isinstance(y_, (ast.stmt, ast.expr)) and not hasattr(y_, "lineno"):
+                    ast.copy_location(y_, n)
+            ast.fix_missing_locations(x_)
+        out = []
+        for st2, oc in self.block(stmts, st):
+            if oc is FALL:
+                out.extend(k(st2, st2.env.get(tmp, ast.List(elts=[], ctx=ast.Load()))))
+            else:
+                out.append((st2, oc))
+        return out
 
     def e_Await(self, n, st, k):
         if isinstance(n.value, ast.Call):
